@@ -174,10 +174,20 @@ def _gen_one(rng, tier, vec):
     return _mk(vec, X, ni, eps, nt, **_rand_kw(rng, vec))
 
 
+def _big_hub(n=40000):
+    """hub token 0 followed by each of n other tokens: row 0 of the 'after' matrix stores n cells (> 2^15)"""
+    return {"vec": "token", "big": n, "X": None, "n_iter": 1, "epsilon": 0, "n_threads": 1, "kw": {}}
+
+
 def generate(rng, tier):
     n = 96 if tier == "quick" else 1200
     # corpus() has a multiple of 8 entries, so the lane pattern continues
-    return [_gen_one(rng, tier, LANES[i % 8]) for i in range(n)]
+    cs = [_gen_one(rng, tier, LANES[i % 8]) for i in range(n)]
+    for c in cs:
+        # history: the same estimator ran (EM included) on a shorter corpus first
+        if len(c["X"]) >= 2 and rng.random() < 0.35:
+            c["prefit"] = rng.randint(1, len(c["X"]) - 1)
+    return cs + [_big_hub(rng.choice([33000, 40000]))]
 
 
 def search(rng, tier):
@@ -304,12 +314,42 @@ def _kwargs(case):
     return kw
 
 
+def _run_big(case):
+    """summary only: with epsilon = 0 one EM round keeps the support and every non-empty column sums to 1"""
+    import numpy as np
+    from vectorizers import TokenCooccurrenceVectorizer
+    n = case["big"]
+    seq = []
+    for i in range(1, n + 1):
+        seq += [0, i]
+    res = {}
+    for ni in (0, 1):
+        v = TokenCooccurrenceVectorizer(n_iter=ni, epsilon=0, window_radii=1, window_orientations="after",
+                                        normalize_windows=False)
+        M = v.fit_transform([seq]).tocsc()
+        M.eliminate_zeros()
+        sums = np.asarray(M.sum(axis=0)).ravel()
+        hub = v.token_label_dictionary_[0]
+        res[str(ni)] = {"nnz": int(M.nnz), "hub_row_nnz": int(M.tocsr()[hub].nnz),
+                        "nonempty_cols": int(np.count_nonzero(np.diff(M.indptr))),
+                        "cols_sum_1": int(np.sum(np.abs(sums - 1.0) < 1e-5)),
+                        "support": hash(tuple(M.tocoo().row.tolist())) ^ hash(tuple(M.tocoo().col.tolist()))}
+    return {"big": res}
+
+
 def run_impl(case):
     import numpy as np
     cls = _ctor(case)
     kw = _kwargs(case)
     out = {}
+    if case.get("big"):
+        return _run_big(case)
     v = cls(n_iter=case["n_iter"], epsilon=case["epsilon"], n_threads=case["n_threads"], **kw)
+    if case.get("prefit"):
+        try:
+            v.fit_transform(case["X"][:case["prefit"]])
+        except Exception:
+            pass
     rec = _capture(v)
     try:
         M = v.fit_transform(case["X"])
@@ -389,7 +429,7 @@ def _bad(o):
 
 def model_requests(case, outs):
     o = outs["normal"]
-    if _bad(o):
+    if _bad(o) or case.get("big"):
         return []
     ni = case["n_iter"]
     if ni == 0 and case["epsilon"] == 0:
@@ -433,7 +473,7 @@ def _cmp_mat(what, impl, model, eps, d):
 
 def compare(case, outs, resps):
     o = outs["normal"]
-    if not resps or _bad(o):
+    if not resps or _bad(o) or case.get("big"):
         return []
     d = []
     for r in resps:
@@ -733,6 +773,18 @@ def _split(flat, cols):
 
 def oracle(case, outs):
     fails = []
+    if case.get("big"):
+        for mode, o in outs.items():
+            if "crash" in o or "harness_exc" in o or "exc" in o:
+                fails.append(_F("em.big.raises", f"[{mode}] hub corpus of {case['big']} tokens: {o}"))
+                continue
+            b = o["big"]
+            if b["1"]["support"] != b["0"]["support"] or b["1"]["nnz"] != b["0"]["nnz"]:
+                fails.append(_F("em.support-changed-at-eps0", f"[{mode}] corpus '0 1 0 2 ... 0 {case['big']}', radius 1 'after', epsilon = 0: "
+                                f"{b['0']['nnz']} stored cells before the EM round, {b['1']['nnz']} after (hub row {b['0']['hub_row_nnz']} -> {b['1']['hub_row_nnz']})"))
+            elif b["1"]["cols_sum_1"] != b["1"]["nonempty_cols"] or b["1"]["nonempty_cols"] != b["0"]["nonempty_cols"]:
+                fails.append(_F("em.column-mass", f"[{mode}] hub corpus of {case['big']} tokens: {b['1']['cols_sum_1']} of {b['0']['nonempty_cols']} columns sum to 1 after one EM round"))
+        return fails[:1]
     for mode, o in outs.items():
         _oracle_mode(case, o, mode, fails)
     # one failure per case: the first (most basic) one — later checks of the same case are consequences of it
@@ -762,6 +814,8 @@ def _pruned_lookup(o):
 
 def nontrivial(case, outs):
     o = outs["normal"]
+    if case.get("big"):
+        return True
     if _bad(o) or case["n_iter"] < 1 or case["epsilon"] <= 0:
         return False
     return _pruned_lookup(o)[0]
@@ -770,6 +824,10 @@ def nontrivial(case, outs):
 def stats(case, outs):
     o = outs["normal"]
     t = [case["vec"], f"n_iter.{case['n_iter']}", f"eps.{case['epsilon']}", f"threads.{case['n_threads']}"]
+    if case.get("big"):
+        return t + ["hub-row-over-32767-cells"]
+    if case.get("prefit"):
+        t.append("refit-after-shorter-corpus")
     if _bad(o):
         return t + (["invalid-input"] if "dictionary is empty" in str(o.get("msg")) else ["raises"])
     hit, past = _pruned_lookup(o)
@@ -789,7 +847,12 @@ def stats(case, outs):
 def shrink_candidates(case):
     # every shrinking round costs a fresh numba compilation per mode, and the generated cases are small already
     # (<= 4 sequences of <= 10 tokens): only whole sequences are dropped.
+    if case.get("big"):
+        return
     X = case["X"]
     for i in range(len(X)):
         if len(X) > 1:
-            yield dict(case, X=X[:i] + X[i + 1:])
+            c = dict(case, X=X[:i] + X[i + 1:])
+            if c.get("prefit"):
+                c["prefit"] = min(c["prefit"], len(c["X"]) - 1) or None
+            yield c
